@@ -13,6 +13,7 @@ func init() {
 	verifHarnesses["h11d"] = h11d
 	verifHarnesses["h11_witness"] = h11_witness
 	verifHarnesses["h11e"] = h11e
+	verifHarnesses["h11s"] = h11s
 }
 
 // zzRefUnescape is the reference reading of a Thrift literal body, left to
@@ -220,5 +221,111 @@ func h11e() {
 	iv, ok := c0.Value.(ast.ConstantInteger)
 	verifAssert(ok, "is-integer")
 	verifAssert(uint64(iv) == want, "integer-literal-value")
+	verifReached("end")
+}
+
+// h11s: structure of field lists. A struct / exception / function parameter
+// list of two fields is rendered from a menu (explicit id or none,
+// requiredness keyword required / optional / none, separator , ; or none,
+// optional docstring), optionally after an earlier Parse call that left a
+// docstring unclaimed or failed; the AST must carry exactly the ids,
+// requiredness, names, docstrings and line numbers that were written.
+func h11s() {
+	kind := verifChoice(3) // struct, exception, function parameters
+	// an earlier, unrelated Parse call in the same process
+	switch verifChoice(3) {
+	case 1:
+		Parse([]byte("struct Old {}\n/** stale docstring */"))
+	case 2:
+		Parse([]byte("/** stale docstring */ struct {"))
+	}
+	var doc []byte
+	switch kind {
+	case 0:
+		doc = append(doc, "struct S {\n"...)
+	case 1:
+		doc = append(doc, "exception S {\n"...)
+	default:
+		doc = append(doc, "service V { void f(\n"...)
+	}
+	type fld struct {
+		id     int
+		hasID  bool
+		req    int // 0 none 1 required 2 optional
+		name   []byte
+		hasDoc bool
+	}
+	var fs [2]fld
+	for i := range fs {
+		f := &fs[i]
+		f.hasID = verifChoice(2) == 1
+		f.id = i + 1
+		f.req = verifChoice(3)
+		f.hasDoc = i == 1 && verifChoice(2) == 1
+		c := byte('q' + verifChoice(2))
+		f.name = []byte{'f', c, byte('0' + i)}
+		if f.hasDoc {
+			doc = append(doc, "/** doc */ "...)
+		}
+		if f.hasID {
+			doc = append(doc, byte('0'+f.id), ':', ' ')
+		}
+		switch f.req {
+		case 1:
+			doc = append(doc, "required "...)
+		case 2:
+			doc = append(doc, "optional "...)
+		}
+		doc = append(doc, "i32 "...)
+		doc = append(doc, f.name...)
+		switch verifChoice(3) {
+		case 0:
+			doc = append(doc, ',')
+		case 1:
+			doc = append(doc, ';')
+		}
+		doc = append(doc, '\n')
+	}
+	if kind == 2 {
+		doc = append(doc, ") }\n"...)
+	} else {
+		doc = append(doc, "}\n"...)
+	}
+	res, errs := Parse(doc)
+	verifAssert(len(errs) == 0, "field-list-accepted")
+	verifAssert(len(res.Program.Definitions) == 1, "one-definition")
+	var fields []*ast.Field
+	switch d := res.Program.Definitions[0].(type) {
+	case *ast.Struct:
+		verifAssert((d.Type == ast.ExceptionType) == (kind == 1), "structure-kind")
+		verifAssert(d.Doc == "", "no-stale-docstring-on-definition")
+		fields = d.Fields
+	case *ast.Service:
+		verifAssert(kind == 2 && len(d.Functions) == 1, "service-shape")
+		verifAssert(d.Doc == "", "no-stale-docstring-on-definition")
+		fields = d.Functions[0].Parameters
+	}
+	verifAssert(len(fields) == 2, "two-fields")
+	for i, f := range fields {
+		w := fs[i]
+		verifAssert(f.IDUnset == !w.hasID, "field-id-presence")
+		if w.hasID {
+			verifAssert(f.ID == w.id, "field-id")
+		}
+		want := ast.Unspecified
+		if w.req == 1 {
+			want = ast.Required
+		} else if w.req == 2 {
+			want = ast.Optional
+		}
+		verifAssert(f.Requiredness == want, "field-requiredness")
+		verifAssert(len(f.Name) == 3 && f.Name[0] == 'f' && f.Name[1] == w.name[1] && f.Name[2] == w.name[2], "field-name")
+		verifAssert(f.Line == 2+i, "field-line")
+		if w.hasDoc {
+			verifAssert(f.Doc == "doc", "field-docstring")
+		} else {
+			verifAssert(f.Doc == "", "no-docstring")
+		}
+	}
 	verifReached("end")
 }
